@@ -4,6 +4,7 @@ strings, Bounded invariant, deviation ZeroOK).  Binding: the real decoder runs u
 import random
 import sys
 
+from . import fakes  # noqa: F401  (installs the quiet log observer, repo path)
 from . import core, tlc, refwire, wirecodec as wc
 from .tlaval import to_tla
 
